@@ -20,6 +20,7 @@ typedef struct { unsigned long edges; W weight; _Bool exists; } cycle_t;
 #define GET0(c) ((c).edges)
 #define GET1(c) ((c).weight)
 #define GET2(c) ((c).exists)
+#define VP_LESS(a, b) ((a) < (b))
 #define SAME(a,b) ((a).edges==(b).edges && (a).weight==(b).weight && (a).exists==(b).exists)
 #define WOK(c) ((c).weight == (c).weight && ((c).exists == 0 || (c).exists == 1))  /* not NaN; bool is a valid bool */
 #define VIEWEQ(a,b) ((a).exists==(b).exists && (!(a).exists || (a).weight==(b).weight))
@@ -76,10 +77,9 @@ def _lambda_fn(site, rel, anchor, W, log):
     text = X.src(rel)
     body = X.body_after(text, anchor, "cycle_min lambda " + site)
     body = X.rewrite(body, [
-        (r"std::get<2>\((c[12])\)", r"GET2(\1)", 3, "overload-resolution", "tuple field 2 = exists"),
-        (r"std::get<1>\((c[12])\)", r"GET1(\1)", 2, "overload-resolution", "tuple field 1 = weight"),
-        (r"\bcompare\(([^,()]+\([^()]*\)), ([^,()]+\([^()]*\))\)", r"((\1) < (\2))", 1, "overload-resolution",
-         "compare is std::less<WeightType>"),
+        (r"std::get<2>\((c[12])\)", r"GET2(\1)", (1, 8), "overload-resolution", "tuple field 2 = exists"),
+        (r"std::get<1>\((c[12])\)", r"GET1(\1)", (0, 8), "overload-resolution", "tuple field 1 = weight"),
+        (r"\bcompare\(", "VP_LESS(", (0, 4), "overload-resolution", "compare is std::less<WeightType>"),
     ], log)
     return "cycle_t OP(const cycle_t c1, const cycle_t c2)\n%s\n{%s}\n" % (CONTRACT % dict(TIE=TIE_LEFT), body)
 
@@ -89,7 +89,7 @@ def _minop_fn(W, log):
     text = X.src(rel)
     body = X.body_after(text, r"struct SerializableMinOddCycleMinOp\s*\{\s*const SerializableMinOddCycleMinOddCycle".replace("MinOddCycleMinOddCycle", "MinOddCycle") + r"<Graph, WeightMap>& operator\(\)\(", "MinOp operator()")
     body = X.rewrite(body, [
-        (r"\b(lhs|rhs)\b", lambda m: "c1" if m.group(1) == "lhs" else "c2", 9, "type-binding",
+        (r"\b(lhs|rhs)\b", lambda m: "c1" if m.group(1) == "lhs" else "c2", (2, 20), "type-binding",
          "parameters lhs/rhs bound to c1/c2 (references -> values; operator only reads)"),
     ], log)
     return "cycle_t OP(const cycle_t c1, const cycle_t c2)\n%s\n{%s}\n" % (CONTRACT % dict(TIE=TIE_ANY), body)
